@@ -149,4 +149,14 @@ def fp_obligations(tier, seed):
                           contract='forall finite %s x. !will_conversion_overflow ==> x*k (as computed by the conversion) is finite; '
                                    'will_conversion_overflow ==> |x*k| is not below max*(1-2^-20 | 2^-49); is_conversion_lossy == disjunction' % ct,
                           functions_under_contract=('au::will_conversion_overflow', 'au::detail::OverflowChecker::would_product_overflow')))
+    # supporting static fact shared with C11: the conversion factor's numerator / denominator is evaluated in the rep through get_value<T>; a prime above 2^63 must be
+    # unrepresentable in every signed rep (it would otherwise wrap to a small negative number and every contract above would be about the wrong factor)
+    BP = ('#include "au/magnitude.hh"\n#include <cstdint>\n#define VF_STATIC_FACT(c) static_assert(c, "VF_STATIC_FACT")\n' +
+          '\n'.join('VF_STATIC_FACT(!au::representable_in<' + t + '>(au::mag<18446744073709551557ULL>()));' for t in ('int8_t', 'int16_t', 'int32_t', 'int64_t')) +
+          '\nVF_STATIC_FACT(au::representable_in<uint64_t>(au::mag<18446744073709551557ULL>()));\n'
+          'VF_STATIC_FACT(!au::representable_in<int64_t>(au::mag<18446744073709551557ULL>() * au::mag<18446744073709551533ULL>()));\n'
+          'VF_STATIC_FACT(!au::representable_in<int32_t>(au::mag<7>() / au::mag<18446744073709551557ULL>()));\nint main() {}\n')
+    obs.append(Ob(id='C04.static.prime-above-2-63-in-signed-rep', prop='C04', group='C04.static', prelude='', wrappers=[], inputs=[], body=BP, kind='S',
+                  contract='static facts: mag<2^64-59>() is not representable in any signed rep (and is in uint64_t): the factor of a conversion is never a wrapped prime',
+                  functions_under_contract=('au::representable_in / get_value (compile-time)',)))
     return obs
